@@ -17,6 +17,57 @@ CHECKS = {
             "pristine-tree replies. Exploration is the right level: the input space is unbounded.",
             "Trusted: the independent parsers in vf/parsers.py, the socketpair driver, the log line format.",
             "DESIGN.md §3 C03"),
+    "C02": ("exploration",
+            "runtime monitoring: laws checked on the real protocol classes (isolated shape tests vs multiplexer "
+            "result, determinism, TLS strictness) + independent request classifier + live first-byte sweep (256 values)",
+            "Held on the executions produced: thousands of generated first lines x TLS/plaintext x header blocks x "
+            "protocol orders, each evaluated on the real classes; the 256 first-byte values are enumerated completely on "
+            "a live connection with and without a TLS context.",
+            "Trusted: mock-TLS socket for the law part (check_tls is an isinstance test), genuine TLS for the sweep; "
+            "the reference classifier abstains where the documents are silent.",
+            "DESIGN.md §3 C02"),
+    "C04": ("exploration",
+            "runtime monitoring: byte-for-byte comparison of fetched documents with the files written by the harness, "
+            "Gopher+ length, HEAD vs GET, MIME type vs independently parsed mime.types, WML inversion",
+            "Held on the executions produced: files at and around every multiple of the 4096-byte copy block, five "
+            "content classes, five name classes, compressed files with and without the decompressing handler, fetched "
+            "through 10 protocol views over mock and genuine TLS.",
+            "Trusted: the socketpair driver, the response parsers, the harness's own copy of the file bytes.",
+            "DESIGN.md §3 C04"),
+    "C05": ("exploration",
+            "runtime monitoring: per-protocol crawler following every link the server itself emits, exactly as "
+            "emitted, with an oracle on success, answering protocol and advertised kind",
+            "Held on the executions produced: whole-site crawls from / in 8 protocol views over generated sites "
+            "(names with spaces, reserved URL characters, non-UTF-8 bytes, names adjacent to the protocols' reserved "
+            "words), both handler lists.",
+            "Trusted: the independent listing readers in vf/crawl.py.",
+            "DESIGN.md §3 C05"),
+    "C06": ("exploration",
+            "runtime monitoring: differential comparison of one directory read through 10 protocol views by independent "
+            "listing readers; MIME equality across protocols; search-string echo through 8 submission mechanisms",
+            "Held on the executions produced: every directory of generated sites x 10 views x abstract settings x "
+            "trailing slash; every object's type in 5 views; ~30 search strings (reserved characters, invalid UTF-8) "
+            "echoed by a script and a PYG handler.",
+            "Trusted: the listing readers; the echo script/PYG module written by the harness.",
+            "DESIGN.md §3 C06"),
+    "C07": ("exploration",
+            "runtime monitoring: reference visibility predicate vs the listed set; interposed os.listdir applying "
+            "permutations (exhaustive for small directories) with byte-identical listings required; exact-selector "
+            "retrieval of kept-out names",
+            "Held on the executions produced: generated directories with names on both sides of every alternative of "
+            "the shipped ignore pattern, dot-files, Type=X metadata, several link files; all permutations of the "
+            "enumeration order for directories of <= 5 (quick) / 6 (thorough) names, sampled beyond.",
+            "Trusted: os.listdir interposition (hit counter must equal the number of permuted listings).",
+            "DESIGN.md §3 C07"),
+    "C19": ("fault_enumeration",
+            "runtime monitoring: strace of the real bin/pygopherd start-up (syscall order), /proc end state, live "
+            "requests; strace syscall fault injection for every privileged call",
+            "Exhaustive over the 8 usechroot/setuid/setgid combinations and every privileged call failing in turn "
+            "(EPERM injected by strace), plus unknown user/group; verdict from the recorded syscall order and the "
+            "process's credentials, root and cwd in /proc.",
+            "Trusted: strace, /proc; needs root + CAP_SYS_CHROOT + ptrace (else in-process fallback, recorded in the "
+            "evidence).",
+            "DESIGN.md §3 C19"),
 }
 
 NOT_YET = "check not built yet in this session (work in progress); see DESIGN.md §3 for the planned monitor"
